@@ -49,7 +49,7 @@ public:
 
 private:
   size_t windowSizeMinusOne_;
-  int squaredMultiplier_;
+  long long int squaredMultiplier_;
 
   std::vector<long long int> squaredData_;
   long long int sumOfSquaredData_;
